@@ -89,7 +89,7 @@ func genC15(c *Ctx) error {
 		}
 	}
 	c.Notes["stub_methods_classified"] = it.NumMethod()
-	c.Notes["rule"] = "scripted query bodies of 1-6 steps drawn from every mutating stub operation (put, put-empty, delete, event, validation parameter, private data put/delete/purge/validation parameter) and reads; query without a sender (direct call) and with a sender (direct call and as a task of executeTasks), with an access-control answer that does / does not carry changed-key transactions; plus every query function of the base contract and base token with valid and invalid arguments. Observed: the complete write set, event and private-data / validation-parameter attempts the simulated peer received for that invocation, and whether the committed ledger changed. Non-trivial: the body attempts at least one mutating operation."
+	c.Notes["rule"] = "scripted query bodies of 1-6 steps drawn from every mutating stub operation (put, put-empty, delete, event, validation parameter, private data put/delete/purge/validation parameter) and reads; query without a sender (direct call) and with a sender (direct call and as a task of executeTasks), with an access-control answer that does / does not carry changed-key transactions; on the task route a third of the queries share their request with a read-only transaction of a bystander, half of these under the same task id; the same bodies in a query method of a gRPC service registered through the gRPC router (the repository's sample BalanceService, METHOD_TYPE_QUERY), through the call context's stub and the contract's; plus every query function of the base contract and base token with valid and invalid arguments. Observed: the complete write set, event and private-data / validation-parameter attempts the simulated peer received for that invocation, and whether the committed ledger changed. Non-trivial: the body attempts at least one mutating operation."
 	rng := c.Rng
 	w := NewWorld()
 	if _, err := w.AddToken("TT", ChanOpts{}); err != nil {
@@ -99,6 +99,7 @@ func genC15(c *Ctx) error {
 	plain := w.NewAccount(fpb.KeyType_ed25519)
 	changed := w.NewAccount(fpb.KeyType_ed25519)
 	changed.SignedTx = []string{"tx1", "tx2"} // the ACL reports changed-key transactions for this account
+	bystander := w.NewAccount(fpb.KeyType_ed25519)
 	nonce := uint64(1700000000000)
 	n := c.N(400, 6000)
 	for i := 0; i < n; i++ {
@@ -125,6 +126,7 @@ func genC15(c *Ctx) error {
 		before := stateSnapshot(ch)
 		var res *TxResult
 		own := ""
+		neighbour := ""
 		switch {
 		case !sender:
 			res, _ = w.Peer.Simulate("tt", w.Peer.NextTxID(), w.Client.Creator, false, strArgs("qScript", []string{script}))
@@ -135,11 +137,39 @@ func genC15(c *Ctx) error {
 		default:
 			nonce++
 			args := w.SignedArgs("tt", "qScriptS", acc, strconv.FormatUint(nonce, 10), script)
-			data := mustMarshal(&fpb.ExecuteTasksRequest{Tasks: []*fpb.Task{{Id: w.Peer.NextTxID(), Method: "qScriptS", Args: args}}})
+			tasks := []*fpb.Task{{Id: w.Peer.NextTxID(), Method: "qScriptS", Args: args}}
+			if rng.Intn(3) == 0 {
+				// the query shares its request with a transaction of a bystander that only reads - half of the time under the
+				// SAME task id (ids are the submitter's labels, nothing makes them unique). The bystander's own nonce record is
+				// not the query's doing and is left out of the observation.
+				nonce++
+				nb := w.SignedArgs("tt", "script", bystander, strconv.FormatUint(nonce, 10), "get,d1")
+				id := w.Peer.NextTxID()
+				if rng.Intn(2) == 0 {
+					id = tasks[0].Id
+					c.Count("query_task_shares_id_with_transaction")
+				}
+				tasks = append(tasks, &fpb.Task{Id: id, Method: "script", Args: nb})
+				neighbour = bystander.AddrString()
+			}
+			data := mustMarshal(&fpb.ExecuteTasksRequest{Tasks: tasks})
 			res, _ = w.Peer.Simulate("tt", w.Peer.NextTxID(), w.Client.Creator, false, strArgs("executeTasks", []string{string(data)}))
 			own = core.ExecuteTasksEvent
 		}
-		w.Peer.Commit("tt", res)
+		if neighbour != "" {
+			var kept []KVWrite
+			for _, wr := range res.Writes {
+				if strings.Contains(wr.Key, neighbour) {
+					before[wr.Key] = string(wr.Value)
+					continue
+				}
+				kept = append(kept, wr)
+			}
+			w.Peer.Commit("tt", res)
+			res.Writes = kept
+		} else {
+			w.Peer.Commit("tt", res)
+		}
 		eff := effectsOf(res, own)
 		if !aclChanged || !sender {
 			aclChanged = aclChanged && sender
@@ -153,6 +183,38 @@ func genC15(c *Ctx) error {
 		}
 		c.Emit(term, map[string]interface{}{"route": route, "sender": sender, "acl_changed_keys": aclChanged, "script": script, "effects": eff, "status": res.Status, "message": res.Message}, mut)
 		c.Count(route + "_sender_" + coqBool(sender))
+	}
+	// a query that only the gRPC router knows to be one (its name carries no "Query" prefix): the same scripted bodies,
+	// through the stub of the call context and through the contract's stub
+	gch, gfn, err := w.AddGrpcToken("GT", ChanOpts{})
+	if err != nil {
+		return err
+	}
+	for i := 0; i < c.N(120, 1500); i++ {
+		k := 1 + rng.Intn(6)
+		var steps, body []string
+		for j := 0; j < k; j++ {
+			s := c15Steps[rng.Intn(len(c15Steps))]
+			steps = append(steps, s.step)
+			body = append(body, strconv.Itoa(s.op))
+		}
+		if rng.Intn(10) == 0 {
+			steps = append(steps, "fail")
+		}
+		grpcQueryScript, grpcQueryUseCtx = strings.Join(steps, ";"), rng.Intn(2) == 0
+		before := stateSnapshot(gch)
+		res, _ := w.Peer.Simulate("gt", w.Peer.NextTxID(), w.Client.Creator, false, strArgs(gfn, []string{"{}"}))
+		w.Peer.Commit("gt", res)
+		eff := effectsOf(res, "")
+		term := fmt.Sprintf("mkCase QDirect false false %s %s %s", coqList(body), intsTerm(eff), coqBool(!stateEqual(before, gch)))
+		mut := false
+		for _, b := range body {
+			if x, _ := strconv.Atoi(b); x <= 8 {
+				mut = true
+			}
+		}
+		c.Emit(term, map[string]interface{}{"route": "QDirect", "grpc_query": gfn, "stub_from_context": grpcQueryUseCtx, "script": grpcQueryScript, "effects": eff, "status": res.Status, "message": res.Message}, mut)
+		c.Count(fmt.Sprintf("grpc_query_ctxstub_%v_status_%d", grpcQueryUseCtx, res.Status))
 	}
 	// every query function of the contract, valid-looking and invalid arguments
 	cc, _ := core.NewCC(&HToken{})
